@@ -23,3 +23,31 @@ package util
 //@ func (*BitArray).Reset
 //@   modifies b.Lo, b.Hi
 //@   ensures cleared: b.Lo == 0 && b.Hi == 0
+//@
+//@ # iterator over the media packets a repair packet protects: every covered index is a valid index into the batch
+//@ pred iterInv(m *MediaPacketIterator) := 0 <= m.nextIndex && m.nextIndex <= len(m.coveredIndices)
+//@     && (forall k int :: 0 <= k && k < len(m.coveredIndices) ==> int(m.coveredIndices[k]) < len(m.mediaPackets))
+//@
+//@ func NewMediaPacketIterator
+//@   ensures made: fresh(result) && result.mediaPackets == mediaPackets && result.coveredIndices == coveredIndices && result.nextIndex == 0
+//@
+//@ func (*MediaPacketIterator).Reset
+//@   modifies m.nextIndex
+//@   ensures rewound: m.nextIndex == 0 && result == m
+//@
+//@ func (*MediaPacketIterator).HasNext
+//@   modifies nothing
+//@   ensures more: result == (m.nextIndex < len(m.coveredIndices))
+//@
+//@ func (*MediaPacketIterator).Next
+//@   requires inv: iterInv(m)
+//@   modifies m.nextIndex
+//@   ensures end: old(m.nextIndex) == len(m.coveredIndices) ==> result == nil && m.nextIndex == old(m.nextIndex)
+//@   ensures step: old(m.nextIndex) < len(m.coveredIndices) ==> m.nextIndex == old(m.nextIndex) + 1 && fresh(result)
+//@        && deref(result) == m.mediaPackets[m.coveredIndices[old(m.nextIndex)]]
+//@
+//@ func (*MediaPacketIterator).First
+//@   requires inv: iterInv(m)
+//@   modifies nothing
+//@   ensures none: len(m.coveredIndices) == 0 ==> result == nil
+//@   ensures first: len(m.coveredIndices) > 0 ==> result == &m.mediaPackets[m.coveredIndices[0]]
